@@ -48,9 +48,10 @@ func chainText(pj *simdjson.ParsedJson) (out string) {
 
 func runAliasChain(op string) string {
 	ws := strings.Fields(op)
-	if len(ws) != 3 {
+	if len(ws) != 3 && !(len(ws) == 4 && ws[3] == "big") {
 		return "bad-op"
 	}
+	big := len(ws) == 4 // documents with more than 1 MiB of copied strings among the steps (size-dependent sharing)
 	seed, _ := strconv.ParseUint(ws[1], 10, 64)
 	steps, _ := strconv.Atoi(ws[2])
 	cr := &rng{s: seed}
@@ -66,6 +67,9 @@ func runAliasChain(op string) string {
 	shared := simdjson.NewSerializer()
 	sharedD := simdjson.NewSerializer()
 	newDoc := func() string {
+		if big && cr.chance(1, 2) {
+			return chainBigDoc(cr)
+		}
 		cfg := defaultCfg(cr)
 		cfg.maxDepth, cfg.maxMembers = 1+cr.intn(3), 2+cr.intn(6)
 		return cr.doc(cfg)
@@ -97,6 +101,17 @@ func runAliasChain(op string) string {
 		if len(pool) == 0 {
 			kind = 0
 		}
+		forceBig, forceNilDst := false, false
+		if big {
+			switch {
+			case s == 0: // a document with more than 1 MiB of copied strings …
+				kind, forceBig = 0, true
+			case s == 1: // … and a clone of it into a fresh (or too small) destination …
+				kind, forceNilDst = 3, true
+			default: // … then mostly edits on either side and parses that recycle one of them
+				kind = []int{4, 4, 4, 0, 0, 3, 2, 4}[cr.intn(8)]
+			}
+		}
 		var desc string
 		switch kind {
 		case 0, 1: // Parse
@@ -104,6 +119,10 @@ func runAliasChain(op string) string {
 			dst, dn := takeDst()
 			var opts []simdjson.ParserOption
 			nocopy := cr.chance(1, 3)
+			if forceBig {
+				text = chainBigDoc(cr)
+				nocopy = false
+			}
 			if nocopy {
 				opts = append(opts, simdjson.WithCopyStrings(false))
 			}
@@ -162,7 +181,13 @@ func runAliasChain(op string) string {
 			pool = append(pool, d)
 		case 3: // Clone
 			src := pool[cr.intn(len(pool))]
-			dst, dn := takeDst()
+			var dst *simdjson.ParsedJson
+			dn := "nil"
+			if forceNilDst {
+				src = pool[0]
+			} else {
+				dst, dn = takeDst()
+			}
 			if dst == src.pj {
 				pool = append(pool, src) // cloning into itself is not a use of the API: put it back
 				continue
@@ -217,11 +242,29 @@ func runAliasChain(op string) string {
 	return "ok " + strconv.Itoa(len(log))
 }
 
+// chainBigDoc is a document whose unescaped strings take more than 1 MiB (so does its string buffer when strings are
+// copied, and also when they are not: every string of it holds an escape).
+func chainBigDoc(cr *rng) string {
+	n := (1 << 20) + cr.intn(400000)
+	return "{\"a\":\"first\\n\",\"fill\":\"" + strings.Repeat("\\n"+string(rune('a'+cr.intn(26))), n/2+16) + "\",\"b\":\"tail\\t\",\"c\":[1,\"x\"]}"
+}
+
 func clipS(s string) string {
 	if len(s) > 160 {
 		return s[:160] + "…"
 	}
 	return s
+}
+
+func aliasChainCaseBig(rn *runner, cr *rng, steps int, note string) {
+	op := fmt.Sprintf("chain %d %d big", cr.u64(), steps)
+	out := runAliasChain(op)
+	rn.rep.Evaluations++
+	rn.rep.Distribution["chain/big"]++
+	rn.seen["chain/big"] = true
+	if !strings.HasPrefix(out, "ok ") {
+		rn.disagree(disagreement{Kind: "spec", Ops: []string{op}, At: 0, Impl: out, Other: "ok <every live document reads as it did when it was made>", Note: note})
+	}
 }
 
 func aliasChainCase(rn *runner, cr *rng, steps int, note string) {
